@@ -32,7 +32,8 @@ func (d synText) Name() string   { return d.name }
 func (d synText) String() string { return d.text }
 
 // synLong: two blocks (separated by an address gap) of mutually independent instructions with
-// encodings of 4, 12, 9 / 16, 2 bytes and texts of up to 33 characters that differ only near their end.
+// encodings of 4, 12, 9 / 16, 2, 2 bytes and texts of up to 33 characters that differ only near their end;
+// the last two instructions have the same bytes and different texts.
 func synLong() []parser.Instruction {
 	mk := func(addr uint64, n int, reg, name, text string) parser.Instruction {
 		bs := make([]byte, n)
@@ -48,6 +49,12 @@ func synLong() []parser.Instruction {
 		mk(0x1010, 9, "rc", "vfmadd.precise", "vfmadd.precise v10, v11, v12, v14"),
 		mk(0x2000, 16, "rd", "vldst.gather.masked", "vldst.gather.masked v1, (v2), v0.t"),
 		mk(0x2010, 2, "re", "c.nop", "c.nop"),
+		// the same two bytes as the instruction before it, another text (a text need not be a function of the bytes)
+		func() parser.Instruction {
+			in := mk(0x2012, 2, "rf", "c.alt", "c.alt 0x2012")
+			copy(in.Bytes, mk(0x2010, 2, "re", "c.nop", "c.nop").Bytes)
+			return in
+		}(),
 	}
 }
 
